@@ -39,9 +39,6 @@ Proof.
   - split; [apply Inv_act, I | apply HM_act, H].
 Qed.
 
-Definition closed_s (s : stream) : bool :=
-  (req_fin s || sst_eqb (cs s) SErrored || sst_eqb (ss s) SErrored) && (negb (upstream s) || resp_fin s || aborted s).
-
 Theorem T_order o s : sreach o s -> venv s = false ->
   forall pre h post, hooks s = pre ++ h :: post -> rule h pre = true.
 Proof.
@@ -199,6 +196,7 @@ Qed.
 Lemma settle_reach e y ws : all_reach e y -> all_reach e (settle e y ws).
 Proof. intros A. unfold settle. apply pump_reach, run_reach, A. Qed.
 
+Opaque run pump.
 Lemma do_op_reach e y o : all_reach e y -> all_reach e (do_op e y o).
 Proof.
   intros A. unfold do_op. destruct (halted y); [exact A|].
@@ -215,21 +213,21 @@ Proof.
 Qed.
 
 Lemma fold_ops_reach e ops : forall y, all_reach e y -> all_reach e (fold_left (do_op e) ops y).
-Proof. induction ops as [|o r IH]; intros y A; simpl; [exact A | apply IH, do_op_reach, A]. Qed.
+Proof. induction ops as [|o r IH]; intros y A; cbn [fold_left]; [exact A | apply IH, do_op_reach, A]. Qed.
 Lemma resume_all_reach e : forall n y, all_reach e y -> all_reach e (resume_all n e y).
 Proof.
-  induction n as [|n IH]; intros y A; simpl; [exact A|].
+  induction n as [|n IH]; intros y A; cbn [resume_all]; [exact A|].
   destruct (deferred y); [exact A|]. destruct (halted y); [exact A|]. apply IH, do_op_reach, A.
 Qed.
 Lemma close_all_reach e y : all_reach e y -> all_reach e (close_all e y).
 Proof.
   intros A. unfold close_all.
   assert (G : forall l y0, all_reach e y0 -> all_reach e (fold_left (fun y k => do_op e y (OCloseS k)) l y0)).
-  { induction l as [|k l IH]; intros y0 A0; simpl; [exact A0 | apply IH, do_op_reach, A0]. }
+  { induction l as [|k l IH]; intros y0 A0; cbn [fold_left]; [exact A0 | apply IH, do_op_reach, A0]. }
   apply G, do_op_reach, A.
 Qed.
 Lemma finish_reach e : forall r y, all_reach e y -> all_reach e (finish r e y).
-Proof. induction r as [|r IH]; intros y A; simpl; [exact A | apply IH, close_all_reach, resume_all_reach, A]. Qed.
+Proof. induction r as [|r IH]; intros y A; cbn [finish]; [exact A | apply IH, close_all_reach, resume_all_reach, A]. Qed.
 
 Theorem run_ops_reach e ops : all_reach e (run_ops e ops).
-Proof. unfold run_ops. apply finish_reach, fold_ops_reach. constructor. Qed.
+Proof. unfold run_ops. apply finish_reach, fold_ops_reach. unfold all_reach. apply Forall_nil. Qed.
